@@ -425,7 +425,9 @@ func (p *{{$TypeName}}) {{.Writer}}(oprot thrift.TProtocol) (err error) {
 		goto WriteFieldEndError
 	}
 	{{- if Features.WithFieldMask}}
-	{{- if Features.FieldMaskZeroRequired}}
+	{{- if not .Requiredness.IsRequired}}
+	}
+	{{- else if Features.FieldMaskZeroRequired}}
 	} else {
 		if err = oprot.WriteFieldBegin("{{.Name}}", thrift.{{$TypeID}}, {{.ID}}); err != nil {
 			goto WriteFieldBeginError
@@ -434,8 +436,6 @@ func (p *{{$TypeName}}) {{.Writer}}(oprot thrift.TProtocol) (err error) {
 		if err = oprot.WriteFieldEnd(); err != nil {
 			goto WriteFieldEndError
 		}
-	}
-	{{- else if not .Requiredness.IsRequired}}
 	}
 	{{- end}}
 	{{- end}}
